@@ -14,6 +14,7 @@ SEEDS = {
     'C02-wchar-is-digit-truncation': ('C02', 'digit_classes'), 'C14-add-dash-prefix': ('C14', 'jsonpointer'), 'C07-half-neg-infinity': ('C07', 'half'),
     'C09-try-emplace-hint-skip': ('C09', 'sorted_object_insert'),
     'C13-jmespath-step-slice-reset': ('C13', 'jmespath_slice_parse'),
+    'C16-merge-nonobject-member-asis': ('C16', 'mergepatch'),
     'C03-fals-cursor-mode': ('C03', 'json_literals'), 'C04-grisu-boundary-shift': ('C04', 'grisu'), 'C10-source-reader-claimed-length': ('C10', 'source_reader'),
 }
 only = sys.argv[1:]
